@@ -7,7 +7,7 @@
   This file proves those statements for `psbtCodec`, the instance the PSBT drivers use
   (`Buidl.PsbtDrv.txCodec = psbtCodec Hash.hash256 PsbtDrv.finalSer`, by `rfl`).
 -/
-import Buidl.Proofs.Tx
+import Buidl.Proofs.TxParse
 import Buidl.Proofs.PsbtCodec
 import Buidl.Drv.PsbtCommon
 namespace Buidl.Tx
@@ -92,5 +92,20 @@ theorem globalWF_of_txWF (O : Oracles) (n : Net) (p : Psbt Tx) (wf : TxWF p.tx)
     (extra : ExtraWF unknownGlobalKey p.extra) :
     GlobalWF (psbtCodec hash256 fin) O n p (coreTx p.tx) :=
   ⟨codec_global_tx hash256 fin p.tx wf, hdNodup, hd, extra⟩
+
+
+/-- **`InMapWF.prevTx` for a transaction that came out of the parser** (the non-witness UTXO of a parsed
+    PSBT): whatever bytes it was parsed from, if it is `Reenc` it serialises and re-parses to exactly itself -/
+theorem codec_prev_tx_parsed (s r : Bytes) (t : Tx) (h : (psbtCodec hash256 fin).parse s = some (t, r)) (hr : Reenc t) :
+    ∃ b, (psbtCodec hash256 fin).serialize t = some b ∧
+      ∀ rest, (psbtCodec hash256 fin).parse (b ++ rest) = some (t, rest) :=
+  parsedTx_fix t (parse_inv h).1 hr
+
+/-- … and for the unsigned transaction, which PSBT reads with `parse_legacy` -/
+theorem codec_global_tx_parsed (s r : Bytes) (t : Tx) (h : (psbtCodec hash256 fin).parseLegacy s = some (t, r))
+    (hr : Reenc t) :
+    ∃ b, (psbtCodec hash256 fin).serialize t = some b ∧
+      ∀ rest, (psbtCodec hash256 fin).parse (b ++ rest) = some (t, rest) :=
+  parsedTx_fix t (parseLegacy_inv h).1 hr
 
 end Buidl.Tx
